@@ -185,6 +185,8 @@ pub fn version_of(p: &NetflowPacket) -> Option<u16> {
         NetflowPacket::V9(x) => Some(x.header.version),
         NetflowPacket::IPFix(x) => Some(x.header.version),
         NetflowPacket::Error(_) => None,
+        #[allow(unreachable_patterns)]
+        _ => None,
     }
 }
 
@@ -198,6 +200,9 @@ pub fn wire_len(p: &NetflowPacket) -> Option<usize> {
         }
         NetflowPacket::IPFix(x) => Some(usize::from(x.header.length).max(16)),
         NetflowPacket::Error(_) => None,
+        // an element kind with no wire length of its own: the result is not a decomposition (C02)
+        #[allow(unreachable_patterns)]
+        _ => None,
     }
 }
 
@@ -294,6 +299,17 @@ impl Sim {
         }
     }
 
+    /// `allowed_versions` is a public field: set it on the live parser (and its twin), state kept.
+    fn reconfigure(&mut self, p: usize, allowed: &[u16]) {
+        self.cfgs[p].allowed = allowed.to_vec();
+        netflow_parser::verif_hooks::set_hash_seed(self.cfgs[p].hash_seed);
+        self.parsers[p].allowed_versions = allowed.iter().cloned().collect();
+        if p < self.twins.len() {
+            self.twins[p].allowed_versions = allowed.iter().rev().cloned().collect();
+        }
+        self.stats.probe("allowed_versions_changed_at_run_time");
+    }
+
     fn restart(&mut self) {
         for i in 0..self.parsers.len() {
             self.parsers[i] = make_parser(&self.cfgs[i]);
@@ -355,6 +371,16 @@ pub fn run_trace(trace: &Trace, prop: &str, mut heartbeat: Option<Heartbeat>) ->
                 sim.restart();
                 dg.str("restart");
                 let tg = 7u64;
+                sim.stats.trigrams.insert(prev2.0 * 1_000_003 + prev2.1 * 1009 + tg);
+                prev2 = (prev2.1, tg);
+            }
+            Ev::Reconfigure { p, allowed, .. } => {
+                if *p >= sim.parsers.len() {
+                    continue;
+                }
+                sim.reconfigure(*p, allowed);
+                dg.str("reconfigure");
+                let tg = 6u64;
                 sim.stats.trigrams.insert(prev2.0 * 1_000_003 + prev2.1 * 1009 + tg);
                 prev2 = (prev2.1, tg);
             }
